@@ -1,9 +1,8 @@
-(* C16: the CIGAR operation codes, the match / ins-del-match classes, the pieces of PolyAFixer.count_polya_exons /
-   count_polyt_exons and the PolyAFinder defaults used by the hand-written models Cigar.v, Cigar2.v, PolyA.v, PolyA2.v are those of
-   the source.  gen/Extra.v is regenerated from src/common.py (CigarEvent), src/polya_verification.py and src/polya_finder.py on every
-   check (tools/translate_extra.py); an edit there changes the right-hand sides below. *)
-From Coq Require Import ZArith QArith Qround List Bool Lia.
-From IQ Require Import Cigar Cigar2 PolyA PolyA2 CigarBridgeDefs.
+(* C16: the CIGAR operation codes and the match / ins-del-match classes used by the hand-written models Cigar.v, Cigar2.v are those of
+   the source.  gen/Extra.v is regenerated from src/common.py (CigarEvent) on every check (tools/translate_extra.py); an edit there
+   changes the right-hand sides below.  (PolyABridge.v: PolyAFixer's exon counts; FinderBridge.v: PolyAFinder defaults.) *)
+From Coq Require Import ZArith List Bool Lia.
+From IQ Require Import Cigar Cigar2 CigarBridgeDefs.
 From IQ.gen Require Import Extra.
 Import ListNotations. Open Scope Z_scope.
 
@@ -27,27 +26,3 @@ Theorem cigar_codes_are_the_sources :
   (forall o, exists e, op_of_event e = o) /\
   (forall e, is_match (op_of_event e) = CE_mem e CE_get_match_events /\ is_idm (op_of_event e) = CE_mem e CE_get_ins_del_match_events).
 Proof. split; [exact cigar_of_code_is_the_value_table|]. split; [exact event_codes|]. split; [exact op_of_event_onto|exact event_classes]. Qed.
-
-(* ------------------------------------------------------------------ PolyAFixer.count_polya_exons / count_polyt_exons *)
-Lemma polya_exon_test_is_the_source mf pos e : is_polya_exon mf pos e = py_count_polya_test mf pos e. Proof. reflexivity. Qed.
-Lemma polyt_exon_test_is_the_source mf pos e : is_polyt_exon mf pos e = py_count_polyt_test mf pos e. Proof. reflexivity. Qed.
-Lemma cpa_rev_is_the_source mf pos l : cpa_rev mf pos l = py_scan (py_count_polya_break pos) (py_count_polya_test mf pos) l.
-Proof. induction l as [|e t IH]; [reflexivity|]. cbn [cpa_rev py_scan]. rewrite IH. reflexivity. Qed.
-Lemma cpt_is_the_source mf pos l : cpt mf pos l = py_scan (py_count_polyt_break pos) (py_count_polyt_test mf pos) l.
-Proof. induction l as [|e t IH]; [reflexivity|]. cbn [cpt py_scan]. rewrite IH. reflexivity. Qed.
-
-Theorem polya_exon_counts_are_the_sources mf exons pos :
-  count_polya_exons mf exons pos = py_count py_count_polya_sentinel py_count_polya_from_last_exon py_count_polya_break (py_count_polya_test mf) exons pos /\
-  count_polyt_exons mf exons pos = py_count py_count_polyt_sentinel py_count_polyt_from_last_exon py_count_polyt_break (py_count_polyt_test mf) exons pos.
-Proof. unfold count_polya_exons, count_polyt_exons, py_count. rewrite cpa_rev_is_the_source, cpt_is_the_source. split; reflexivity. Qed.
-
-(* ------------------------------------------------------------------ PolyAFinder defaults *)
-(* the parameters (w, need, fnum, fden) and the (from, to, entire) windows with which Cigar2.find_polya_tail / find_polyt_head are
-   instantiated (props/C11.v examples; harness/props/c16.py: windows (2, 2w, false) and (4w, 2, true), need = int(w * fraction)) *)
-Theorem finder_defaults_are_the_sources :
-  PF_window_size = 16 /\ PF_polyA_count = 12 /\
-  (Qnum PF_min_polya_fraction, Z.pos (Qden PF_min_polya_fraction)) = (3, 4) /\
-  PF_polyA_count = Qfloor (inject_Z PF_window_size * PF_min_polya_fraction) /\
-  PF_polya_external = (2, 2 * PF_window_size, false) /\ PF_polya_internal = (4 * PF_window_size, 2, true) /\
-  PF_polyt_external = (2, 2 * PF_window_size, false) /\ PF_polyt_internal = (4 * PF_window_size, 2, true).
-Proof. repeat split. Qed.
